@@ -254,3 +254,52 @@ def b_hist(tier, seed):
                 failures.append({"what": "tracked angle differs from accumulated rotation", "input": {"axis": axis, "angle0": angle0, "theta": theta, "step": step}, "detail": f"l = {val}, expected {angle0 + theta}"})
                 break
     return {"cases": cases, "distinct": cases, "failures": failures[:3], "bound": "random histories of increments in (-pi/2, pi/2), all axes, random orientations"}
+
+
+@contract("C25", "Revolute/the post-processing aliases angle, angle_dot are l, l_dot of the SAME joint - also after deepcopy", samples=0, replayable=False, timeout=30)
+def c_aliases(k):
+    """`angle` / `angle_dot` are the documented way to read the joint angle in post-processing.  The tracking state lives on
+    the joint object, so the alias must be bound to the object it is read from: on a joint of a deep-copied system (the
+    restart workflow, System.deepcopy) it reads and updates the COPY's full-turn counter, not the original's.  Executed
+    natively: original driven through two and a half turns, copy reset and driven through a quarter turn."""
+    from vk import npshim
+
+    if not k.sym:
+        raise K.Reject("decided by native execution")
+    import warnings
+
+    from cardillo import System
+    from cardillo.discrete import RigidBody
+
+    k.covers(Revolute.__init__, Revolute.l, Revolute.reset)
+    with npshim.active(False), warnings.catch_warnings():
+        warnings.simplefilter("ignore")
+        for axis in (0, 1, 2):
+            s = System()
+            rb = RigidBody(1.0, np.eye(3), q0=np.array([0, 0, 0, 1, 0, 0, 0.0]))
+            j = Revolute(s.origin, rb, axis=axis, angle0=0.3, name="hinge")
+            s.add(rb, j)
+            s.assemble()
+            e = np.eye(3)[axis]
+
+            def q_at(theta):
+                return np.concatenate([np.zeros(3), [np.cos(theta / 2), *(np.sin(theta / 2) * e)]])
+
+            thetas = np.arange(1, 51) * (2.5 * 2 * np.pi / 50)  # 2.5 turns in steps of 18 degrees
+            for th in thetas:
+                a = j.angle(0.0, q_at(th)[j.qDOF] if len(j.qDOF) == 7 else q_at(th))
+            k.prove(f"axis {axis}: alias on the original joint follows the accumulated angle", bool(abs(a - (0.3 + thetas[-1])) <= 1e-9), show=f"{a} vs {0.3 + thetas[-1]}")
+            state_orig = (j.n_full_rotations, j.previous_quadrant)
+            c = s.deepcopy()
+            jc = c.contributions_map["hinge"]
+            k.prove(f"axis {axis}: the copy has a joint object of its own", jc is not j)
+            jc.reset()
+            small = np.arange(1, 6) * (0.5 * np.pi / 5)  # a quarter turn on the copy
+            for th in small:
+                ac = jc.angle(0.0, q_at(th))
+                lc = jc.l(0.0, q_at(th))
+                k.prove(f"axis {axis}: on the copy angle(t, q) = l(t, q) at theta = {th:.3f}", bool(abs(ac - lc) <= 1e-12), show=f"angle {ac}, l {lc}")
+            k.prove(f"axis {axis}: the copy's alias reports the copy's angle (0.3 + a quarter turn)", bool(abs(ac - (0.3 + small[-1])) <= 1e-9), show=f"{ac} vs {0.3 + small[-1]}")
+            k.prove(f"axis {axis}: reading the copy's angle leaves the original's tracking state alone", (j.n_full_rotations, j.previous_quadrant) == state_orig, show=f"{(j.n_full_rotations, j.previous_quadrant)} vs {state_orig}")
+            u = np.array([0, 0, 0, *(1.7 * e)])
+            k.prove(f"axis {axis}: angle_dot = l_dot on the copy", bool(abs(jc.angle_dot(0.0, q_at(0.4), u) - jc.l_dot(0.0, q_at(0.4), u)) <= 1e-12))
